@@ -23,7 +23,7 @@ PROPS = {
              "subpool^3, from type-directed random arguments, or from the len/substring unit-consistency sweep; the "
              "observed outcome is compared with the reference builtin (bit-exact value, error where the reference "
              "says error); non-trivial = the reference claims an outcome (not `unclaimed`); distinct = distinct "
-             "(name, argument) renderings Also: tuples of 50-600 elements and strings of 200-4000 characters as arguments; 18 names that must be unknown (aliases under foreign namespaces, feature-gated builtins).",
+             "(name, argument) renderings Also: tuples of 50-600 elements and strings of 200-4000 characters as arguments; 18 names that must be unknown (aliases under foreign namespaces, feature-gated builtins); str::from of a non-string equals the Display of the value, alone and as a tuple element.",
         assumptions=COMMON + [
             "f64 library functions and Unicode case mapping / trimming are std's on both sides; only the wiring is checked",
             "not claimed (accepted, any non-panicking outcome): shifts outside 0..63, min/max with NaN or of an empty tuple, "
@@ -70,7 +70,7 @@ PROPS = {
              "a RecordingContext; the triple (result, final context, ordered log of user-function calls and set_value "
              "attempts) must equal the reference interpreter's, and the H2 hook trace must satisfy the schedule "
              "specification (children once, left to right, then apply; stop in the failing application); "
-             "non-trivial = the reference claims the program; distinct = distinct (source, initial context) Also per program: the read-only path (effects + schedule), one of the 14 typed mutable entry points (effects + final context), a second use of the same tree after an evaluation against a different context; long programs (50-300 statements), programs nested 130-330 levels, sequences of every size 2..70, trees evaluated 20-80 times on one context; type-directed programs that mostly run to completion.",
+             "non-trivial = the reference claims the program; distinct = distinct (source, initial context) Also per program: the read-only path (effects + schedule), one of the 14 typed mutable entry points (effects + final context), a second use of the same tree after an evaluation against a different context; long programs (50-300 statements), programs nested 130-330 levels, sequences of every size 2..70, trees evaluated 20-80 times on one context; type-directed programs that mostly run to completion; every program also on the bare HashMapContext (result + final context); user functions that insist on a tuple or call the library themselves; NaN values.",
         assumptions=COMMON + [
             "not generated: `x op= e` whose e assigns x (two documented readings differ)",
             "get_value reads are logged but not order-compared with effects",
@@ -111,7 +111,7 @@ PROPS = {
              "depth 12; the 5 immutable and 5 mutable iterators must equal the occurrence list of the generating AST; "
              "unknown-identifier errors must name listed identifiers; an injective renaming through the mutable "
              "iterators plus the same renaming of the context must not change the result; non-trivial = the program "
-             "precompiles; distinct = distinct source texts Also: partially advanced iterators finished through for_each / fold / last / count / nth; renamed source must precompile to the iterator-renamed tree; renaming per namespace; identifiers overlapping between the namespaces; non-ASCII identifiers whose low byte is an operator character; a quarter of the programs tight or under separator plans.",
+             "precompiles; distinct = distinct source texts Also: partially advanced iterators finished through for_each / fold / last / count / nth; renamed source must precompile to the iterator-renamed tree; renaming per namespace; identifiers overlapping between the namespaces; non-ASCII identifiers whose low byte is an operator character; a quarter of the programs tight or under separator plans; identifiers containing U+FEFF / U+200B; literals respelled in hexadecimal / exponent form, also directly in front of a sign.",
         assumptions=COMMON,
     ),
     "C06": dict(
@@ -120,7 +120,7 @@ PROPS = {
              "10^k +-1, random, decimal / hex / leading zeros, embedded without spaces), a finite non-negative double "
              "in up to 8 renderings x 6 embeddings, or a word (generated identifiers and near-literals must be "
              "identifiers that can be assigned and read); the oracle is the round trip through the harness's own "
-             "renderers; non-trivial = every literal; distinct = distinct literal values Also: 100 two-character strings over a hostile set, 22 multi-character escape-like sequences (all must be errors), leading-dot exponent renderings, 40 quote / slash / star look-alikes and format characters, zero-width characters inside words.",
+             "renderers; non-trivial = every literal; distinct = distinct literal values Also: 100 two-character strings over a hostile set, 22 multi-character escape-like sequences (all must be errors), leading-dot exponent renderings, 40 quote / slash / star look-alikes and format characters, zero-width characters inside words; words with doubled or foreign radix prefixes; an identifier glued to a string literal is that function applied to that string.",
         assumptions=COMMON + ["Rust's float formatting/parsing (shortest round trip) is trusted to build the renderings; every "
                               "rendering is parsed back by the harness before the implementation is asked",
                               "integer / hex words outside the 64-bit range and floats overflowing to infinity are not claimed"],
@@ -144,7 +144,7 @@ PROPS = {
              "effect, and every left-behind clone original) are compared; the BFS applies every operation from every "
              "(abstract state, last-operation kind) key reached within the key budget, replaying each history on a "
              "fresh context; random histories of 50-300 steps over 5 names extend it; non-trivial = a BFS key or a "
-             "completed random history; distinct = distinct keys / histories Also: contexts with 10-300 variables and 10-200 functions (type-changing assignments, clears, re-use), histories over 20 names, clone_from into a dirty target, rebinding of functions, user functions named like builtins, contexts built by context_map! and math_consts_context! followed by every operation.",
+             "completed random history; distinct = distinct keys / histories Also: contexts with 10-300 variables and 10-200 functions (type-changing assignments, clears, re-use), histories over 20 names, clone_from into a dirty target, rebinding of functions, user functions named like builtins, contexts built by context_map! and math_consts_context! followed by every operation; functions named like the variables; 17 plausible pre-defined names must read as unknown variables in every state.",
         assumptions=COMMON + ["the BFS is complete only up to its key budget per first operation and history length 6"],
     ),
     "C01": dict(
@@ -172,7 +172,7 @@ PROPS = {
              "the shared objects from several threads; the same workload scaled down runs under Miri (one schedule per "
              "seed; UB and data races fatal) and, in the thorough tier, under ThreadSanitizer; Send + Sync of the 8 "
              "public types is decided by rustc on /verif/sendsync; non-trivial = every evaluation; distinct = distinct "
-             "interleaving signatures (hash of the thread-id sequence of the SlowContext log per round) Later additions: 13 expressions incl. 40/24/20-element nodes, 16 distinct builtins per expression, long identifiers; a context that lives through all rounds; contexts built on the worker threads; clones of shared trees are evaluated; only exactly specified builtins (Miri perturbs inexact float intrinsics).",
+             "interleaving signatures (hash of the thread-id sequence of the SlowContext log per round) Later additions: 13 expressions incl. 40/24/20-element nodes, 16 distinct builtins per expression, long identifiers; a context that lives through all rounds; contexts built on the worker threads; clones of shared trees are evaluated; only exactly specified builtins (Miri perturbs inexact float intrinsics); per round one shared tree assigning identifiers new to the process evaluated by all threads at once on their own contexts, 96 string-level evaluations of distinct sources per thread, a slow shared function called with 0.0 / -0.0 at overlapping times.",
         assumptions=COMMON + ["race detectors see only schedules that occurred (Miri: seeded; TSan/native: whatever the OS produced)",
                               "Send/Sync itself is the compiler's verdict, reported through the same interface"],
         profiles=[],
